@@ -472,7 +472,7 @@ func (w *World) signAndVerify(l *tbLine, mtx *wire.MsgTx, wallet string, flagIdx
 		c := *in
 		cp.TxIn = append(cp.TxIn, &c)
 	}
-	_, werr := w.W.SignRawTx([]byte("wrong"+PrivPass(wallet)), flag, &cp)
+	_, werr := w.W.SignRawTx([]byte("X"+PrivPass(wallet)[1:]), flag, &cp)
 	l.Sign.WrongErr = werr != nil
 	l.Sign.CachedAfterWrong = w.cachedKeys(wallet)
 	for _, in := range cp.TxIn {
@@ -521,7 +521,7 @@ func (w *World) signAndVerify(l *tbLine, mtx *wire.MsgTx, wallet string, flagIdx
 		c := *in
 		again.TxIn = append(again.TxIn, &c)
 	}
-	_, aerr := w.W.SignRawTx([]byte("wrong"+PrivPass(wallet)), flag, &again)
+	_, aerr := w.W.SignRawTx([]byte("X"+PrivPass(wallet)[1:]), flag, &again)
 	l.Sign.WrongAfterErr = aerr != nil
 	// edit an output of the signed transaction and sign again: the new witnesses must fit the new transaction
 	l.Sign.ResignOK = true
